@@ -5,6 +5,7 @@
 -/
 import PyshaclModel.Core
 import PyshaclModel.SparqlGlue
+import PyshaclModel.Advanced
 import PyshaclModel.Generated.Caps
 namespace Pyshacl
 
@@ -96,6 +97,10 @@ structure Env where
   components : Except Failure (List Component) := .ok []
   /-- opaque SPARQL engine for validators: validator, shape, focus, value ↦ ASK answer / SELECT rows -/
   va : Term → Term → Term → Term → Option ValidatorAnswer := fun _ _ _ _ => none
+  /-- advanced mode: the registered SPARQL functions and target types, and the opaque engine's tables for them -/
+  fns : List FnDecl := []
+  tts : List Term := []
+  adv : AdvTables := {}
 
 structure Ctx extends Env where
   o : Opts
@@ -412,7 +417,10 @@ def evalConstraint (c : Env) (rec : Rec) (s : Shape) (k : CKind) (fv : FV) (path
                 | none => .error (.raw "sparql-table-miss")
                 | some sols => ofResults (sparqlResults s cn msgs f sols))
       | _ => .error .constraintLoad
-  | .expression => .error (.raw "model:expression-not-in-this-op")
+  | .expression =>
+    match evalExpression c.sg c.dg c.fns c.adv s fv with
+    | .error e => .error e
+    | .ok rs => ofResults rs
 
 /-- one applicable SPARQL-based constraint component on shape `s` (`make_validator_for_shape` + `evaluate`) -/
 def evalComponent (c : Env) (s : Shape) (comp : Component) (fv : FV) : Out :=
@@ -458,10 +466,10 @@ def valueNodes (c : Env) (s : Shape) (foci : List Term) : Except Failure FV :=
 /-- focus resolution of `Shape.validate`: the explicit focus, or the shape's own targets, then the
     `focus_nodes` option filter (only for shapes resolving their own targets).
     `none` ⇔ the call returns `(True, [])` at once. -/
-def resolveFocus (c : Ctx) (s : Shape) (focus : Option (List Term)) : Option (List Term) :=
+def resolveFocus (c : Ctx) (s : Shape) (focus : Option (List Term)) (extra : List Term := []) : Option (List Term) :=
   let focusList := match focus with
     | some fs => fs
-    | none => focusNodes c.sg c.dg s.node
+    | none => focusNodes c.sg c.dg s.node ++ extra
   if focusList = [] then none else
   match c.o.focusNodes with
   | some fns =>
@@ -504,7 +512,11 @@ def validateCore (c : Ctx) (rec' : Rec) (s : Shape) (focusList : List Term)
 def validateBody (c : Ctx) (rec' : Rec) (s : Shape) (focus : Option (List Term))
     (path : Option (List PathEntry)) : Out :=
   if s.deactivated then .ok (true, []) else
-  match resolveFocus c s focus with
+  -- `Shape.focus_nodes` of an advanced shape adds the solutions of its custom targets
+  match (if focus.isNone ∧ c.o.advanced then advancedFocus c.sg c.tts c.adv s.node else .ok []) with
+  | .error e => .error e
+  | .ok extra =>
+  match resolveFocus c s focus extra with
   | none => .ok (true, [])
   | some focusList => validateCore c rec' s focusList path
 
@@ -528,14 +540,25 @@ def validateAll (c : Ctx) (shapes : List Shape) (focus : Option (List Term)) : O
     `focus` / `useShapes` are the expanded `focus_nodes` / `use_shapes` options ([] = not given). -/
 def runValidate (o : Opts) (sg dg : Graph) (rx : Regex) (focus useShapes : List Term)
     (sq : Term → Term → Option (List Sol) := fun _ _ => none) (sqInfo : Term → Option SparqlTemplate := fun _ => none)
-    (va : Term → Term → Term → Term → Option ValidatorAnswer := fun _ _ _ _ => none) : Out :=
+    (va : Term → Term → Term → Term → Option ValidatorAnswer := fun _ _ _ _ => none) (adv : AdvTables := {}) : Out :=
+  -- advanced mode: target types and functions are harvested (and checked) after the shapes, before anything runs
+  let advE : Except Failure (List FnDecl × List Term) :=
+    if o.advanced then
+      match gatherTargetTypes sg, gatherFunctions sg with
+      | .error e, _ => .error e
+      | _, .error e => .error e
+      | .ok tts, .ok fns => .ok (fns, tts)
+    else .ok ([], [])
   match useShapes with
   | [] =>
     match buildShapes sg with
     | .error e => .error e
     | .ok shapes =>
       let o' := { o with focusNodes := if focus = [] then none else some focus }
-      validateAll ⟨⟨sg, dg, shapes, rx, sq, sqInfo, findComponents sg, va⟩, o'⟩ shapes none
+      match advE with
+      | .error e => .error e
+      | .ok (fns, tts) =>
+      validateAll ⟨⟨sg, dg, shapes, rx, sq, sqInfo, findComponents sg, va, fns, tts, adv⟩, o'⟩ shapes none
   | _ =>
     match buildShapesFromList sg useShapes with
     | .error e => .error e
@@ -545,7 +568,10 @@ def runValidate (o : Opts) (sg dg : Graph) (rx : Regex) (focus useShapes : List 
           | none => .error (Failure.raw "KeyError")) useShapes with
       | .error e => .error e
       | .ok selected =>
-        if focus = [] then validateAll ⟨⟨sg, dg, shapes, rx, sq, sqInfo, findComponents sg, va⟩, o⟩ selected none
-        else validateAll ⟨⟨sg, dg, shapes, rx, sq, sqInfo, findComponents sg, va⟩, o⟩ selected (some focus)
+        match advE with
+        | .error e => .error e
+        | .ok (fns, tts) =>
+        if focus = [] then validateAll ⟨⟨sg, dg, shapes, rx, sq, sqInfo, findComponents sg, va, fns, tts, adv⟩, o⟩ selected none
+        else validateAll ⟨⟨sg, dg, shapes, rx, sq, sqInfo, findComponents sg, va, fns, tts, adv⟩, o⟩ selected (some focus)
 
 end Pyshacl
